@@ -1,6 +1,6 @@
 #!/bin/bash
 # usage: tools/seedtest.sh <seed-dir> <property> [more properties...]   (applies patch to /repo, runs checks, reverts)
-d=$1; shift
+d=$(cd "$1" && pwd); shift
 cd /verif
 git -C /repo diff --quiet || { echo "repo dirty"; exit 2; }
 git -C /repo apply "$d/patch.diff" || { echo "patch does not apply"; exit 2; }
